@@ -105,6 +105,13 @@ type Enc struct {
 	merges   map[int]*mergeInfo
 	dyn      map[ssa.Value]types.Type // interface-typed parameters specialised to a dynamic type
 	spec     map[string]string        // parameter name -> type string (from the property config)
+	litOf       map[string]string // SMT symbol of a string literal -> its Go value
+	callRegion  int
+	siteOrd     map[*ssa.Call]int
+	lastOrd     map[string]int
+	siteResults map[string]*Val // results of call sites, for resultof("callee#n") in contracts
+	module     *Module
+	ghostSites map[string]bool // call sites whose execution is tracked by a ghost flag (reached("callee#n"))
 	effTaint bool
 	effDepth int
 	specName string
@@ -283,7 +290,7 @@ func (e *Enc) arr(st *State, name, elemSort string) string {
 	a := e.epochArr(st, name, "(Array Ref "+elemSort+")")
 	if first && st.epoch == 0 && elemSort == "Ref" {
 		// heap closedness at entry: every object reference stored in the pre-state was allocated before entry
-		e.assume(fmt.Sprintf("(forall ((r Ref)) (! (=> ((_ is obj) (select %s r)) (<= (oid (select %s r)) |alloc!0|)) :pattern ((select %s r))))", a, a, a))
+		e.assume(fmt.Sprintf("(forall ((r Ref)) (! %s :pattern ((select %s r))))", preExisting(sel(a, "r")), a))
 	}
 	return a
 }
@@ -305,6 +312,11 @@ func (e *Enc) havocAllExcept(st *State, alsoWritten map[string]bool) {
 	e.n++
 	st.epoch = e.n
 	st.m = map[string]string{}
+	for k, t := range pre.m {
+		if strings.HasPrefix(k, "G|") {
+			st.m[k] = t
+		}
+	}
 	for a, ref := range pre.unesc {
 		t := a.Type().Underlying().(*types.Pointer).Elem()
 		e.preserve(&pre, st, ref, t, alsoWritten)
@@ -546,6 +558,10 @@ func (e *Enc) strLit(s string) string {
 		return "|" + name + "|"
 	}
 	q := e.declare(name, "Str")
+	if e.litOf == nil {
+		e.litOf = map[string]string{}
+	}
+	e.litOf[q] = s
 	e.assume(eq(app("slen", q), num(int64(len(s)))))
 	for i := 0; i < len(s); i++ {
 		e.assume(eq(app("sat", q, num(int64(i))), num(int64(s[i]))))
@@ -753,7 +769,11 @@ func (e *Enc) mergeStates(b *ssa.BasicBlock, preds []*ssa.BasicBlock) State {
 		same := true
 		for _, p := range preds {
 			ps := e.endState[p]
-			incs = append(incs, e.arrRaw(&ps, n, srt))
+			if _, has := ps.m[n]; !has && strings.HasPrefix(n, "G|") {
+				incs = append(incs, "false")
+			} else {
+				incs = append(incs, e.arrRaw(&ps, n, srt))
+			}
 			if incs[len(incs)-1] != incs[0] {
 				same = false
 			}
